@@ -12,7 +12,7 @@ use crate::tree::*;
 use std::collections::{BTreeMap, BTreeSet};
 use xot::{Error, Node, Xot};
 
-type Scope = BTreeMap<usize, usize>;
+pub type Scope = BTreeMap<usize, usize>;
 
 pub fn json_escape(s: &str) -> String {
     s.replace('\\', "\\\\").replace('"', "\\\"")
@@ -36,7 +36,7 @@ pub fn fail(sink: &mut Sink, prop: &str, signature: &str, what: &str, t: &GTree,
     );
 }
 
-fn decls_of(t: &GTree) -> Vec<(usize, usize)> {
+pub fn decls_of(t: &GTree) -> Vec<(usize, usize)> {
     let mut out = vec![];
     for k in &t.kids {
         match k.v {
@@ -82,7 +82,7 @@ fn declared_on_chain(t: &GTree, path: &[usize]) -> Vec<usize> {
     out
 }
 
-fn ns_of_name(vocab: &Vocab, name: usize) -> usize {
+pub fn ns_of_name(vocab: &Vocab, name: usize) -> usize {
     vocab.names[name].1
 }
 
@@ -236,78 +236,8 @@ pub fn check_node(sink: &mut Sink, xot: &Xot, vocab: &Vocab, t: &GTree, path: &[
             }
         }
     }
-    // qualified names: every name of the vocabulary, element rule (weak, kind-free part)
-    for name in 0..vocab.names.len() {
-        let ns = ns_of_name(vocab, name);
-        let local = &vocab.names[name].0;
-        let r = xot.name_ref(vocab.name(name), node).map(|r| prefix_num(r.prefix_id()));
-        let f = xot.full_name(node, vocab.name(name));
-        match (&r, &f) {
-            (Ok(p), Ok(s)) => {
-                let want = if vocab.prefixes[*p].0.is_empty() { local.clone() } else { format!("{}:{}", vocab.prefixes[*p].0, local) };
-                if *s != want {
-                    fail(sink, "C09", "C09:full_name-and-name_ref-disagree", &format!("name {}: full_name {:?}, name_ref prefix {}", name, s, p), t, path, "names");
-                }
-                if ns != 0 && scope.get(p) != Some(&ns) {
-                    fail(sink, "C09", "C09:name_ref-prefix-not-bound-to-namespace", &format!("name {}: prefix {} is bound to {:?}, the name is in namespace {}", name, p, scope.get(p), ns), t, path, "names");
-                }
-                if ns == 0 && *p != 0 {
-                    fail(sink, "C09", "C09:name_ref-prefix-for-no-namespace-name", &format!("name {}: prefix {}", name, p), t, path, "names");
-                }
-            }
-            (Err(Error::MissingPrefix(_)), Err(Error::MissingPrefix(_))) => {
-                if scope.values().any(|n| *n == ns) {
-                    if redeclared {
-                        fail(sink, "C09", "C09:full_name-missing-prefix-past-shadowed-prefix", &format!("name {} (namespace {}): MissingPrefix although the namespace is bound in scope {:?}", name, ns, scope), t, path, "names");
-                    } else {
-                        fail(sink, "C09", "C09:full_name-missing-prefix-though-bound", &format!("name {} (namespace {}): MissingPrefix although the namespace is bound in scope {:?}", name, ns, scope), t, path, "names");
-                    }
-                }
-            }
-            _ => fail(sink, "C09", "C09:full_name-and-name_ref-disagree", &format!("name {}: one errs, the other does not", name), t, path, "names"),
-        }
-    }
-    // the node's own name, by the rule for its kind
-    let own = match sub.v {
-        GValue::Element(n) => Some((n, false)),
-        GValue::Attribute(n, _) => Some((n, true)),
-        _ => None,
-    };
-    if let Some((name, is_attr)) = own {
-        let ns = ns_of_name(vocab, name);
-        match xot.node_name_ref(node) {
-            Ok(Some(r)) => {
-                let p = prefix_num(r.prefix_id());
-                let resolved = if p == 0 {
-                    if is_attr { 0 } else { scope.get(&0).copied().unwrap_or(0) }
-                } else {
-                    scope.get(&p).copied().unwrap_or(usize::MAX)
-                };
-                if name_num(r.name_id()) != name {
-                    fail(sink, "C09", "C09:node_name_ref-wrong-name", "node_name_ref names another name", t, path, "node");
-                } else if resolved != ns {
-                    if is_attr && p == 0 && ns != 0 {
-                        fail(sink, "C09", "C09:attribute-in-default-namespace-reported-unprefixed", &format!("attribute name {} in namespace {} is reported with the empty prefix (resolves to no namespace for an attribute); scope {:?}", name, ns, scope), t, path, "node");
-                    } else if !is_attr && p == 0 && ns == 0 {
-                        fail(sink, "C09", "C09:no-namespace-element-reported-unprefixed-under-default-namespace", &format!("element name {} is in no namespace, is reported unprefixed, and the default namespace in scope is {}", name, resolved), t, path, "node");
-                    } else {
-                        fail(sink, "C09", "C09:qualified-name-resolves-to-other-namespace", &format!("name {} in namespace {}: prefix {} resolves to {}", name, ns, p, resolved), t, path, "node");
-                    }
-                }
-            }
-            Ok(None) => fail(sink, "C09", "C09:node_name_ref-none-for-named-node", "node_name_ref gives None for an element or attribute", t, path, "node"),
-            Err(_) => {
-                let usable = scope.iter().any(|(p, n)| *n == ns && (!is_attr || *p != 0));
-                if usable {
-                    if redeclared {
-                        fail(sink, "C09", "C09:node_name_ref-missing-prefix-past-shadowed-prefix", &format!("name {} in namespace {}: MissingPrefix although a usable prefix is in scope {:?}", name, ns, scope), t, path, "node");
-                    } else {
-                        fail(sink, "C09", "C09:node_name_ref-missing-prefix-though-bound", &format!("name {} in namespace {}: MissingPrefix although a usable prefix is in scope {:?}", name, ns, scope), t, path, "node");
-                    }
-                }
-            }
-        }
-    }
+    // qualified names (full_name / name_ref / node_name_ref), by the rule for the node's kind
+    crate::scope_names::check_names(sink, xot, vocab, t, path, node, &scope, redeclared);
 }
 
 // ---------------------------------------------------------------------------------------------
